@@ -100,6 +100,7 @@ class C15World(World):
             self.inc[0].double()
         self.updated = False
         self.torn = False
+        self.sampling_uncontrolled = False
         self.has_init = [m for m in self.inc[0].modules() if type(m).__name__ == "ActNorm"]
 
     def abstract(self):
@@ -170,6 +171,19 @@ class C15World(World):
         """Run the same call on every incarnation; compare bitwise."""
         results = []
         k = op.get("interrupt") if self.cfg.get("faulty") else None
+        if k and len(self.inc) > 1:
+            # a crash point inside an operation is injected on ONE incarnation only: a warm and a cold instance may
+            # legitimately execute different numbers of Python lines (lazy memos, lazily created scratch buffers), so
+            # "the k-th line" is not the same place on both. Keep the newest incarnation; the next restart forks from
+            # the torn state it is left in.
+            self.inc = [self.inc[-1]]
+            self.probes["collapsed_to_one_incarnation_before_interrupt"] += 1
+        sampling = op["fn"] in ("sample", "sample_and_log_prob")
+        if sampling and (self.inc[0].training or self.sampling_uncontrolled):
+            # sampling is compared only where it is a function of the global RNG state (calibrated below, in
+            # evaluation mode); C15 itself speaks of forward, inverse and log_prob
+            log.add("sample_not_compared")
+            return False
         for root in self.inc:
             with grad_ctx(grad):
                 try:
@@ -185,6 +199,20 @@ class C15World(World):
                 except Exception as ex:   # noqa: BLE001 - whether a call is valid is not C15's business, only that all incarnations agree
                     results.append(("raised", type(ex).__name__))
         first = results[0]
+        if sampling and first[0] == "ok":
+            # calibration: the same call again on the first incarnation under the same global RNG state
+            with grad_ctx(grad):
+                try:
+                    res = self._invoke(self.inc[0], op, self._dtype())
+                    outs = res if isinstance(res, tuple) else (res,)
+                    again = ("ok", b"".join(core.tbytes(o) for o in outs))
+                except Exception as ex:   # noqa: BLE001
+                    again = ("raised", type(ex).__name__)
+            if again != first:
+                self.sampling_uncontrolled = True
+                self.probes["sampling_not_a_function_of_the_global_rng"] += 1
+                log.add("sample_not_compared")
+                return False
         for i, r in enumerate(results[1:], 1):
             self.comparisons += 1
             if r != first:
@@ -327,7 +355,11 @@ class C15World(World):
         probes = [{"fn": fn, "x": rng.seed30(), "rows": 3, "rng": 1 + i, "n": 2} for i, fn in enumerate(self.entry.calls())]
         src.eval()
         mine = restart_server.run_probes(self.entry, src, probes, self._dtype())
+        again = restart_server.run_probes(self.entry, src, probes, self._dtype())
         src.train(was)
+        keep = [i for i, (op_, a, b) in enumerate(zip(probes, mine, again))
+                if a == b or op_["fn"] not in ("sample", "sample_and_log_prob")]
+        probes, mine = [probes[i] for i in keep], [mine[i] for i in keep]
         self.save_bytes("xproc", src.state_dict())
         job = {"spec": self.cfg["spec"], "seed": int(rng.seed30()), "dtype64": self.dtype64,
                "ckpt": base64.b64encode(self.storage["xproc"]).decode(), "probes": probes}
